@@ -336,6 +336,9 @@ def run(chk) -> None:
         chk.floor("R29b.bracketed_nodes", 1000)
         chk.floor("R29b.bracket_set_refs", 100)
 
+    # ---- R29c: a referenced segment class must be matchable ----------------------------
+    _r29c(chk, repo, g, table)
+
     # ---- R29a -----------------------------------------------------------------------
     counts: Dict[str, int] = {}
     loc = Locator(repo, g)
@@ -378,6 +381,106 @@ def run(chk) -> None:
     chk.exhaustive = True
     chk.extra["unresolved_references"] = len(unresolved)
     chk._c29_unresolved = unresolved  # for the findings dump
+
+
+def _class_index(repo) -> Dict[str, List[Tuple[object, ast.ClassDef]]]:
+    idx: Dict[str, List[Tuple[object, ast.ClassDef]]] = {}
+    for prefix in ("src/sqlfluff/core/parser/", "src/sqlfluff/dialects/"):
+        for m in repo.iter_modules(prefix):
+            for q, c in m.classes():
+                idx.setdefault(c.name, []).append((m, c))
+    return idx
+
+
+def _class_attr(repo, m, c, name: str):
+    """Constant value of class attribute ``name`` along the source MRO (None when not a constant)."""
+    for mm, cc in repo.mro(m, c):
+        for st in cc.body:
+            if isinstance(st, ast.Assign) and any(isinstance(t, ast.Name) and t.id == name for t in st.targets):
+                return st.value.value if isinstance(st.value, ast.Constant) else None
+            if isinstance(st, ast.AnnAssign) and isinstance(st.target, ast.Name) and st.target.id == name and st.value is not None:
+                return st.value.value if isinstance(st.value, ast.Constant) else None
+    return None
+
+
+def _r29c(chk, repo, g, table) -> None:
+    """BaseSegment.match consumes a token that already is an instance of the class and otherwise
+    asserts on / dereferences ``cls.match_grammar`` (so does ``simple()``, which option pruning
+    calls).  A Ref to a segment class that has neither a match_grammar nor its own match
+    therefore raises AssertionError/AttributeError as soon as it meets a token that is not an
+    instance -- unless every code token the dialect's lexer can produce is an instance."""
+    chk.rule(
+        "R29c",
+        "every reachable Ref to a segment class resolves to a class that can be matched: it has a match_grammar or its own "
+        "match(), or every code-token class of the dialect's lexer is a subclass of it (so the instance test always succeeds)",
+    )
+    cidx = _class_index(repo)
+
+    def lexer_classes(d) -> List[str]:
+        out = []
+
+        def go(rec):
+            if rec is None:
+                return
+            out.append(rec.get("segment_class"))
+            go(rec.get("subdivider"))
+            go(rec.get("trim_post_subdivide"))
+
+        for rec in d.lexer:
+            go(rec)
+        return sorted({c for c in out if c})
+
+    def always_instance(d, target: str) -> Tuple[bool, List[str]]:
+        bad = []
+        for cname in lexer_classes(d):
+            defs = cidx.get(cname)
+            if not defs:
+                bad.append(cname + " (class not found in source)")
+                continue
+            for m, c in defs:
+                if _class_attr(repo, m, c, "_is_code") is False or _class_attr(repo, m, c, "is_meta") is True:
+                    continue  # non-code tokens are skipped by the grammars before a Ref is tried
+                if not any(cc.name == target for _, cc in repo.mro(m, c)):
+                    bad.append(cname)
+        return (not bad), sorted(set(bad))
+
+    for label in sorted(table):
+        d = g.get(label)
+        if d is None or d.root is None:
+            continue
+        reach = d.reach()
+        seen = set()
+        for i in sorted(reach):
+            n = d.nodes[i]
+            ref = n.get("ref")
+            if not ref or ref not in d.library:
+                continue
+            t = d.nodes[d.library[ref]]
+            if t.get("family") != "segment" or t.get("kind") != "segment":
+                continue
+            chk.count("R29c.refs_to_segment_classes")
+            if t.get("match_grammar") is not None or t.get("own_match"):
+                chk.obligations += 1
+                chk.discharged += 1
+                continue
+            ok, bad = always_instance(d, t["name"])
+            for o in [x for x in d.owners(i) if x in reach] or [i]:
+                on = d.nodes[o]
+                mod = on.get("module") or f"{DIALECT_DIR}/{table[label][0]}.py"
+                key = (d.display(o), ref)
+                if key in seen:
+                    continue
+                seen.add(key)
+                chk.require(
+                    ok, "R29c", None,
+                    f"dialect {label!r}: Ref({ref!r}) in {d.display(o)} resolves to segment class {t['name']} "
+                    f"({t.get('module')}:{t.get('line')}) which has no match_grammar and no match() of its own: BaseSegment.match / "
+                    f"simple() fail (AssertionError / AttributeError) for any token that is not already an instance, e.g. tokens lexed as "
+                    f"{bad[:4]}; chain {' > '.join(d.chain(i))}",
+                    detail=f"dialect={label} ref={ref} in={d.display(o)} (class without match_grammar)",
+                    construct=f"{mod}::{d.display(o)}", loc=f"{mod}:{on.get('line', 0)}",
+                )
+    chk.floor("R29c.refs_to_segment_classes", 5000)
 
 
 # -- machine-readable list of today's findings ------------------------------------------
